@@ -228,8 +228,10 @@ func (f recFetcher) Get(k eval.VariableKey, s string) (eval.Value, error) {
 	*f.log = append(*f.log, Call{Kind: "get", Name: s, VarKey: int16(k), Res: v})
 	return v, err
 }
-func (f recFetcher) Set(k eval.VariableKey, s string, v eval.Value) error { return f.inner.Set(k, s, v) }
-func (f recFetcher) Cached(k eval.VariableKey, s string) bool              { return f.inner.Cached(k, s) }
+func (f recFetcher) Set(k eval.VariableKey, s string, v eval.Value) error {
+	return f.inner.Set(k, s, v)
+}
+func (f recFetcher) Cached(k eval.VariableKey, s string) bool { return f.inner.Cached(k, s) }
 
 func keyMapStr(m map[string]eval.VariableKey) string {
 	names := make([]string, 0, len(m))
